@@ -44,6 +44,13 @@ def run(tier):
                 why = "an unsupported value must yield GenError::NotYetImplemented, got %s" % (o.get("err") or "bytes %s" % o.get("bytes"))
         elif not o.get("ok"):
             why = "serialization failed: %s" % o.get("err")
+        elif kind == "flight":
+            if not o.get("flight_equals_concatenation"):
+                why = "records written one after the other into one output differ from the concatenation of their own serializations"
+            elif o["bytes"] != c["ser"]:
+                why = "the flight's bytes differ from the specification's SerFlight (%d vs %d bytes)" % (len(o["bytes"]), len(c["ser"]))
+            if not o.get("again") == o["bytes"]:
+                why = why or "serializing the flight a second time gave different bytes"
         else:
             s = strict.get(c["id"])
             norm = c["norm"]
